@@ -23,6 +23,12 @@ fn main() {
         "c02-sweep" => sweep_c02(&args),
         "c03" => run_c03(&args),
         "c04" => run_cases(&args, "C04", case_c04),
+        "fuzz-one" => {
+            let prop = args.str("property", "C01");
+            let mut rep = Report::new("fmt_driver", &prop);
+            fuzz_case(&mut rep, &args, &cvh::fuzz::unhex(&args.str("hex", "")));
+            rep.finish(args.get("out"))
+        }
         m => {
             eprintln!("unknown mode {}", m);
             2
@@ -35,13 +41,41 @@ struct Ctx<'a> {
     rep: &'a mut Report,
     args: &'a Args,
     case_seed: u64,
+    /// set when the case is driven by a fuzzer input instead of a case seed
+    replay: Option<Vec<(&'static str, String)>>,
 }
 
 impl<'a> Ctx<'a> {
     fn violation(&mut self, property: &str, rule: &str, class: &str, detail: String, trace: Json) {
-        let replay_args = self.args.to_vec_with(&[("case-seed", self.case_seed.to_string())]);
+        let replay_args = match &self.replay {
+            Some(r) => self.args.to_vec_with(r),
+            None => self.args.to_vec_with(&[("case-seed", self.case_seed.to_string())]),
+        };
         self.rep.violation(Violation { property: property.into(), rule: rule.into(), class: class.into(), detail, replay_args, trace });
     }
+}
+
+/// One fuzzer input: the bytes drive the case generator of the property under test (see cvh::fuzz).
+fn fuzz_case(rep: &mut Report, args: &Args, data: &[u8]) {
+    let prop = args.str("property", "C01");
+    let mut r = Rng::from_bytes(data);
+    let mut ctx = Ctx { rep, args, case_seed: 0, replay: Some(cvh::fuzz::replay_of(data)) };
+    match prop.as_str() {
+        "C02" => case_c02_n(&mut ctx, &mut r, 3),
+        "C03" => {
+            let n = r.range(1, 8) as usize;
+            let outcomes: Vec<bool> = (0..n).map(|_| r.chance(1, 2)).collect();
+            let with_handler = r.chance(1, 2);
+            c03_sequence(&mut ctx, &mut r, &outcomes, None, with_handler);
+        }
+        "C04" => case_c04_n(&mut ctx, &mut r, true),
+        _ => case_c01_n(&mut ctx, &mut r, true),
+    }
+}
+
+#[allow(dead_code)]
+pub fn fuzz_one(data: &[u8]) {
+    cvh::fuzz::step("fmt_driver(fuzz)", |rep, args| fuzz_case(rep, args, data));
 }
 
 fn run_cases(args: &Args, prop: &str, f: fn(&mut Ctx, &mut Rng)) -> i32 {
@@ -54,12 +88,12 @@ fn run_cases(args: &Args, prop: &str, f: fn(&mut Ctx, &mut Rng)) -> i32 {
     }
     if let Some(cs) = args.get("case-seed") {
         let cs: u64 = cs.parse().expect("case-seed");
-        let mut ctx = Ctx { rep: &mut rep, args, case_seed: cs };
+        let mut ctx = Ctx { rep: &mut rep, args, case_seed: cs, replay: None };
         f(&mut ctx, &mut Rng::new(cs));
     } else {
         for i in 0..cases {
             let cs = mix(&[seed, cvh::rng::hash_str(prop), shard, i]);
-            let mut ctx = Ctx { rep: &mut rep, args, case_seed: cs };
+            let mut ctx = Ctx { rep: &mut rep, args, case_seed: cs, replay: None };
             f(&mut ctx, &mut Rng::new(cs));
             if rep.violation_count >= 12 {
                 break;
@@ -119,6 +153,11 @@ fn ntags_class(n: usize) -> &'static str {
 // ------------------------------------------------------------------------------------------------
 
 fn case_c01(ctx: &mut Ctx, r: &mut Rng) {
+    case_c01_n(ctx, r, false)
+}
+
+/// `one`: a single entry point per case (small cases for the coverage-guided runs).
+fn case_c01_n(ctx: &mut Ctx, r: &mut Rng, one: bool) {
     let allow_dirty = r.chance(1, 3);
     let (cfg, pclass) = gen_client_cfg(r, allow_dirty, false);
     let sink = RecSink::new();
@@ -127,7 +166,10 @@ fn case_c01(ctx: &mut Ctx, r: &mut Rng) {
     let (key, kclass) = gen_key(r, allow_dirty);
     let mask = r.below(16) as u8;
     let decos = gen_decos(r, mask, allow_dirty, false);
-    let eps = all_entry_points();
+    let mut eps = all_entry_points();
+    if one {
+        eps = vec![*r.pick(&eps)];
+    }
     for (kind, tt) in eps {
         let val = gen_val(r, kind, tt, true, false);
         for form in [Form::Plain, Form::Tagged, Form::Quiet] {
@@ -230,13 +272,17 @@ fn check_c01_call(ctx: &mut Ctx, client: &StatsdClient, cfg: &ClientCfg, sink: &
 // ------------------------------------------------------------------------------------------------
 
 fn case_c02(ctx: &mut Ctx, r: &mut Rng) {
+    case_c02_n(ctx, r, 24)
+}
+
+fn case_c02_n(ctx: &mut Ctx, r: &mut Rng, calls: usize) {
     let cfg = ClientCfg { prefix_raw: if r.chance(1, 2) { "p".into() } else { String::new() }, ..Default::default() };
     let sink = RecSink::new();
     let hlog = HandlerLog::default();
     let client = build_client(&cfg, sink.clone(), Some(hlog.clone()));
     // numeric entry points only; user types included (they reach PackedSigned)
     let eps = all_entry_points();
-    for _ in 0..24 {
+    for _ in 0..calls {
         let (kind, tt) = *r.pick(&eps);
         if tt == "user:Err" || tt == "incr" || tt == "decr" {
             continue;
@@ -619,7 +665,7 @@ fn run_c03(args: &Args) -> i32 {
         let cs: u64 = cs.parse().unwrap();
         let pattern: Vec<bool> = args.str("pattern", "").chars().map(|c| c == '1').collect();
         let ep = args.get("ep").map(|i| all_entry_points()[i.parse::<usize>().unwrap()]);
-        let mut ctx = Ctx { rep: &mut rep, args, case_seed: cs };
+        let mut ctx = Ctx { rep: &mut rep, args, case_seed: cs, replay: None };
         c03_sequence(&mut ctx, &mut Rng::new(cs), &pattern, ep, !args.flag("no-handler"));
         return rep.finish(args.get("out"));
     }
@@ -636,7 +682,7 @@ fn run_c03(args: &Args) -> i32 {
                 let cs = mix(&[seed, 0xC03, ei as u64, len as u64, bits as u64]);
                 let pat_s: String = pattern.iter().map(|b| if *b { '1' } else { '0' }).collect();
                 let a2 = Args::from_vec(args.to_vec_with(&[("pattern", pat_s), ("ep", ei.to_string())]));
-                let mut ctx = Ctx { rep: &mut rep, args: &a2, case_seed: cs };
+                let mut ctx = Ctx { rep: &mut rep, args: &a2, case_seed: cs, replay: None };
                 c03_sequence(&mut ctx, &mut Rng::new(cs), &pattern, Some(*ep), bits % 5 != 4);
                 enumerated += 1;
             }
@@ -655,7 +701,7 @@ fn run_c03(args: &Args) -> i32 {
         let pattern: Vec<bool> = (0..len).map(|_| r.below(100) >= p_fail).collect();
         let pat_s: String = pattern.iter().map(|b| if *b { '1' } else { '0' }).collect();
         let a2 = Args::from_vec(args.to_vec_with(&[("pattern", pat_s)]));
-        let mut ctx = Ctx { rep: &mut rep, args: &a2, case_seed: cs };
+        let mut ctx = Ctx { rep: &mut rep, args: &a2, case_seed: cs, replay: None };
         c03_sequence(&mut ctx, &mut Rng::new(cs), &pattern, None, i % 4 != 3);
         if rep.violation_count >= 12 {
             break;
@@ -696,13 +742,20 @@ fn sections_of(text: &str) -> Result<(Option<String>, Option<String>), String> {
 }
 
 fn case_c04(ctx: &mut Ctx, r: &mut Rng) {
+    case_c04_n(ctx, r, false)
+}
+
+fn case_c04_n(ctx: &mut Ctx, r: &mut Rng, one: bool) {
     // C04 is judged on delimiter-free strings, where the tag and container sections are unambiguous
     let with_defaults = !r.chance(1, 5);
     let (cfg, _pclass) = gen_client_cfg(r, false, with_defaults);
     let sink = RecSink::new();
     let hlog = HandlerLog::default();
     let client = build_client(&cfg, sink.clone(), Some(hlog.clone()));
-    let eps = all_entry_points();
+    let mut eps = all_entry_points();
+    if one {
+        eps = vec![*r.pick(&eps)];
+    }
     let key = "k";
     for (kind, tt) in eps {
         if tt == "user:Err" {
